@@ -38,7 +38,6 @@ var (
 
 // Blob is a blob.Blob for JS environments, optimized for reading and writing to a Uint8Array without en/decoding back and forth.
 type Blob struct {
-	bytes   atomic.Value // *blob.Bytes
 	jsValue atomic.Value // safejs.Value
 	length  int64
 }
@@ -109,14 +108,6 @@ func fromBlob(b blob.Blob) (*Blob, error) {
 	return newBlob(jsBuf)
 }
 
-func (b *Blob) currentBytes() *blob.Bytes {
-	buf := b.bytes.Load()
-	if buf != nil {
-		return buf.(*blob.Bytes)
-	}
-	return nil
-}
-
 // Bytes implememts blob.Blob
 func (b *Blob) Bytes() []byte {
 	buf, err := b.getBytes()
@@ -127,9 +118,7 @@ func (b *Blob) Bytes() []byte {
 }
 
 func (b *Blob) getBytes() ([]byte, error) {
-	if buf := b.currentBytes(); buf != nil {
-		return buf.Bytes(), nil
-	}
+	// always copy out of the JS buffer. a cached Go copy can't follow writes made through a view of this blob, or through its parent
 	jsBuf := b.jsValue.Load().(safejs.Value)
 	length, err := jsBuf.Length()
 	if err != nil {
@@ -140,7 +129,6 @@ func (b *Blob) getBytes() ([]byte, error) {
 	if err != nil {
 		return nil, err
 	}
-	b.bytes.Store(blob.NewBytes(buf))
 	return buf, nil
 }
 
@@ -171,14 +159,6 @@ func (b *Blob) View(start, end int64) (blob.Blob, error) {
 	if err != nil {
 		return nil, err
 	}
-
-	if buf := b.currentBytes(); buf != nil {
-		newBytesBlob, err := b.currentBytes().View(start, end)
-		if err != nil {
-			return nil, err
-		}
-		newBlob.bytes.Store(newBytesBlob)
-	}
 	return newBlob, nil
 }
 
@@ -200,13 +180,6 @@ func (b *Blob) Slice(start, end int64) (blob.Blob, error) {
 	if err != nil {
 		return nil, err
 	}
-	if buf := b.currentBytes(); buf != nil {
-		newBytes, err := buf.Slice(start, end)
-		if err != nil {
-			return nil, err
-		}
-		newBlob.bytes.Store(newBytes)
-	}
 	return newBlob, nil
 }
 
@@ -226,13 +199,6 @@ func (b *Blob) Set(src blob.Blob, destStart int64) (n int, err error) {
 		return 0, err
 	}
 	n = src.Len()
-
-	if buf := b.currentBytes(); buf != nil {
-		_, err := buf.Set(src, destStart)
-		if err != nil {
-			return 0, err
-		}
-	}
 	return n, nil
 }
 
@@ -251,13 +217,6 @@ func (b *Blob) Grow(off int64) error {
 	}
 	b.jsValue.Store(biggerBuf)
 	atomic.StoreInt64(&b.length, newLength)
-
-	if buf := b.currentBytes(); buf != nil {
-		err := buf.Grow(off)
-		if err != nil {
-			return err
-		}
-	}
 	return nil
 }
 
@@ -274,12 +233,5 @@ func (b *Blob) Truncate(size int64) error {
 	}
 	b.jsValue.Store(smallerBuf)
 	atomic.StoreInt64(&b.length, size)
-
-	if buf := b.currentBytes(); buf != nil {
-		err := buf.Truncate(size)
-		if err != nil {
-			return err
-		}
-	}
 	return nil
 }
